@@ -176,6 +176,10 @@ func (w *World) doCall(m *Mgr, ti, oi int, op *Op) *Call {
 	if op.NoSendWait {
 		opts = append(opts, gorums.WithNoSendWaiting())
 	}
+	if op.Ctx != "bg" {
+		// the context exists: it may end before the call is even made
+		simrt.Yield("op:pre-invoke")
+	}
 	w.mu.Lock()
 	c.InvokeSeq = w.nextSeq()
 	c.InvokeStep = w.step
@@ -213,6 +217,9 @@ func (w *World) doCall(m *Mgr, ti, oi int, op *Op) *Call {
 		// a completion watcher observes the future (Done must become true, Get must return)
 		fut := c.res
 		simrt.GoNamed(fmt.Sprintf("c%d/t%d/fut%d", m.Idx, ti, c.Tok), "future-watcher", func() {
+			w.mu.Lock()
+			c.getsStarted++
+			w.mu.Unlock()
 			r, err := fut.future()
 			w.mu.Lock()
 			c.Gets = append(c.Gets, getResult{Seq: w.nextSeq(), Ret: r, Err: err})
@@ -262,6 +269,9 @@ func (w *World) doGet(c *Call) {
 		return
 	}
 	before := c.res.done()
+	w.mu.Lock()
+	c.getsStarted++
+	w.mu.Unlock()
 	r, err := c.res.future()
 	w.mu.Lock()
 	c.Gets = append(c.Gets, getResult{Seq: w.nextSeq(), Ret: r, Err: err})
@@ -284,8 +294,12 @@ func (w *World) doClose(m *Mgr, n int) {
 	if n < 1 {
 		n = 1
 	}
+	simrt.Gate("close:wait-ready", func() bool { return m.ready })
 	w.ev("close-invoke", "mgr=%d n=%d", m.Idx, n)
 	w.mu.Lock()
+	if !m.closed {
+		m.closeInvokedAt = w.simTime
+	}
 	m.closed = true
 	w.mu.Unlock()
 	done := make(chan struct{}, n)
@@ -383,6 +397,9 @@ func (w *World) startObservers(m *Mgr, ti int, c *Call) {
 				inv := w.nextSeq()
 				w.mu.Unlock()
 				ch := corr.Watch(ob.Level)
+				w.mu.Lock()
+				c.watchStarted = append(c.watchStarted, ob.Level)
+				w.mu.Unlock()
 				<-ch
 				sample("watch-closed", ob.Level, inv)
 			})
